@@ -131,6 +131,21 @@ DECL_POOL = ['enum e { k = 0 }', 'enum e : mjtE { k = C }', 'enum e { }', 'enum 
              'element y (alias=x) { child x * }', 'element e { child e R }']
 
 
+# smallest texts around rules whose enforcement depends on where / how a construct is written
+MINIMAL = ['element x { a : int (min) }', 'element x { a : int (max) }', 'element x { a : int (min, max=1) }',
+           'element x { a : int (min=1) }', 'element x { a : int (min="1") }', 'element x { a : int (min=k) }',
+           'element x { a : string (min) }', 'element x { a : int (positive) }', 'element x { a : int (positive=1) }',
+           'group g { p : int q : int r : int\n requires p q+r }', 'group g { p : int q : int r : int\n requires p q r }',
+           'group g { p : int q : int\n requires p q }', 'element x { p : int q : int r : int\n requires p q+r }',
+           'element x { p : int q : int\n requires p q }', 'group g { p : int q : int\n requires p+q p }',
+           'group g variant { p : int q : int\n requires p q+p }',
+           'group g { p : int q : int\n requires p q+p }\nelement x { use g }']
+
+
+def minimal_texts():
+    return iter(MINIMAL)
+
+
 def decl_texts():
     for n in (0, 1, 2, 3):
         for ds in itertools.product(DECL_POOL, repeat=n):
